@@ -19,13 +19,16 @@ namespace ShpanVerif.Drive.C06
 open ShpanVerif.Util ShpanVerif.Model ShpanVerif.Drive.Conc
 
 def expectDel (c : Case) : List Nat :=
-  if c.op == "ccons" then List.range c.n else (List.range c.n).map (· + 1000)
+  if c.op == "ccons" || c.op == "buf" then List.range c.n else (List.range c.n).map (· + 1000)
+
+/-- which elements a callback gated / counted by the harness must have seen (Buffered alone has no callback) -/
+def expectCalls (c : Case) : List Nat := if c.op == "buf" then [] else List.range c.n
 
 def spec (c : Case) (o : Obs) : Bool × String :=
   if o.res != "ok" then (false, s!"terminal returned {o.res}")
   else if o.hang != "-" then (false, s!"hang {o.hang}")
   else if o.del != expectDel c then (false, "delivered multiset differs from map f source")
-  else if o.calls != List.range c.n then (false, "callback not invoked exactly once per element")
+  else if o.calls != expectCalls c then (false, "callback not invoked exactly once per element")
   else if o.maxin > c.c then (false, s!"{o.maxin} callbacks in flight with concurrency {c.c}")
   else if o.leak != 0 then (false, s!"{o.leak} goroutines left")
   else (true, "")
@@ -55,7 +58,7 @@ def model (c : Case) (o : Obs) : String :=
         fmtObs (resStrC s.res) (sortNats s.called) (toString r.maxIn) (sortNats s.called) s.cursor
           (if s.srcClosed then 1 else 0) (if s.badWindow || s.badOverlap then "bad" else "-") leak "-" o.trace o.plog
     else
-      fmtObs "ok" (expectDel c) maxEcho (List.range c.n) c.n 1 "-" 0 "-" o.trace o.plog
+      fmtObs "ok" (expectDel c) (if c.op == "buf" then "0" else maxEcho) (expectCalls c) c.n 1 "-" 0 "-" o.trace o.plog
 
 def handle (cs obs : String) : String × Bool × String :=
   match parseCase cs with
